@@ -340,6 +340,25 @@ func runTemp(c *harness.Ctx) harness.Result {
 	dir := filepath.Join(c.Tmp, "out")
 	os.MkdirAll(dir, 0o755)
 	res := harness.Result{NonTrivial: true, Sig: fmt.Sprint("temp", c.Index)}
+	// what earlier runs left behind in the directory: files of the same naming sequence, empty or
+	// not, fresh or old (a pprof killed between creating and filling its file leaves an empty one)
+	leftovers := map[string]string{}
+	if c.Index%2 == 1 {
+		for k, n := 0, 1+c.Rng.Intn(5); k < n; k++ {
+			name := filepath.Join(dir, fmt.Sprintf("profile%03d.pb.gz", 1+c.Rng.Intn(40)))
+			content := ""
+			if c.Rng.Intn(2) == 0 {
+				content = fmt.Sprintf("kept from an earlier run %d", k)
+			}
+			os.WriteFile(name, []byte(content), 0o644)
+			if c.Rng.Intn(3) > 0 {
+				old := time.Now().Add(-time.Duration(1+c.Rng.Intn(72)) * time.Hour)
+				os.Chtimes(name, old, old)
+			}
+			leftovers[name] = content
+		}
+		c.Stat("temp_dirs_with_leftovers", 1)
+	}
 	var wg sync.WaitGroup
 	var mu sync.Mutex
 	names := map[string]string{}
@@ -357,6 +376,9 @@ func runTemp(c *harness.Ctx) harness.Result {
 						return
 					}
 					content := fmt.Sprintf("goroutine %d file %d", g, k)
+					if (g+k)%3 == 0 {
+						time.Sleep(time.Millisecond) // the creator produces its data (a converter runs, a graph is laid out)
+					}
 					f.WriteString(content)
 					f.Close()
 					mu.Lock()
@@ -403,6 +425,13 @@ func runTemp(c *harness.Ctx) harness.Result {
 		b, err := os.ReadFile(name)
 		if err != nil || string(b) != content {
 			bad.Store(fmt.Sprintf("file %s holds %q, its creator wrote %q (overwritten or lost; err=%v)", name, b, content, err))
+		}
+	}
+	for name, content := range leftovers {
+		if who, taken := names[name]; taken {
+			bad.Store(fmt.Sprintf("%s existed before (%d bytes) and was handed out as a new file to %q", name, len(content), who))
+		} else if b, err := os.ReadFile(name); err != nil || string(b) != content {
+			bad.Store(fmt.Sprintf("%s, which existed before with content %q, now holds %q (err=%v)", name, content, b, err))
 		}
 	}
 	if v := bad.Load(); v != nil {
